@@ -251,6 +251,7 @@ _RUNNER = ConcreteRunner()
 # symbolic run of one obligation (inside a worker process)
 # ---------------------------------------------------------------------------------
 MAX_VIOL_PER_CLAUSE = 3
+MAX_KNOWN_PER_CLAUSE = 300
 
 
 def model_inputs(eng, ctx, model):
@@ -284,6 +285,7 @@ def run_obligation(prop, ob_dict, known):
             eng.root_prefix = [bool((k >> (d - 1 - i)) & 1) for i in range(d)]
         holder = {}
         viol_count = {}
+        known_count = {}
         deadline = t0 + ob.timeout_s
 
         def body():
@@ -354,13 +356,16 @@ def run_obligation(prop, ob_dict, known):
                               'inputs': inputs, 'info': str(info) if info is not None else None,
                               'replay': rep}
                     if rep['status'] == 'ok' and clause in failed:
-                        k = known.match(prop, ob.scenario, clause, ob.params, inputs) if known else None
+                        k = known.match(prop, ob.scenario, clause, ob.params, inputs, rep.get('observed')) if known else None
                         if k is not None:
                             if k not in [x['finding'] for x in res['known']]:
                                 res['known'].append({'finding': k, 'record': record})
+                            known_count[clause] = known_count.get(clause, 0) + 1
+                            if known_count[clause] >= MAX_KNOWN_PER_CLAUSE:
+                                viol_count[clause] = MAX_VIOL_PER_CLAUSE
                         else:
                             res['violations'].append(record)
-                        viol_count[clause] = viol_count.get(clause, 0) + 1
+                            viol_count[clause] = viol_count.get(clause, 0) + 1
                     else:
                         res['unconfirmed'].append(record)
                         viol_count[clause] = viol_count.get(clause, 0) + 1
